@@ -8,7 +8,7 @@ contract(
     family="Hasher",
     entry_lemmas=["L_class_fmt()"],
     modifies=["self.hasher"],
-    ensures=["self.hasher.alg == std_alg(fmt_of(self))", "self.hasher.absorbed == b''", "fresh(self.hasher)"],
+    ensures=["self.hasher.alg == std_alg(fmt_of(self))", "self.hasher.absorbed == b''", "fresh(self.hasher)", "allocated(self.hasher)"],
     props=["C01", "C07"],
 )
 
@@ -192,6 +192,7 @@ contract(
         "result.hasher.absorbed == b''",
         "fresh(result)",
         "fresh(result.hasher)",
+        "allocated(result.hasher)",
     ],
     props=["C01", "C07"],
 )
@@ -358,16 +359,23 @@ PER_HASHER = [
     f"all(fmt_of({HL}[k]) == k and {HL}[k].hasher.alg == std_alg(k) for k in {HL}.keys())",
     f"all(allocated({HL}[k]) and allocated({HL}[k].hasher) for k in {HL}.keys())",
     f"all({HL}[a].hasher != {HL}[b].hasher for a in {HL}.keys() for b in {HL}.keys() if a != b)",
+    # the hashers are this call's own objects: feeding them is inside the (empty) frame of the function
+    f"all(fresh({HL}[k]) and fresh({HL}[k].hasher) for k in {HL}.keys())",
 ]
 FD = ["fd.content == file_bytes(file_path)", "0 <= fd.pos <= len(fd.content)", "len(chunk) > 0 or fd.pos == len(fd.content)"]
 contract(
     "ascmhl.hasher.AggregateHasher.hash_file",
-    bounded="49 of 56 obligations discharge; the quantified dict-of-hashers invariants (loop0 inv 4/5, loop1 inv 2, loop2 inv 1, "
-    "frame of update in loop2, ensures 0/1) stay `unknown` in z3 and cvc5 - checked by the run-time monitors instead",
     params={"file_path": "str", "hash_formats": "list[str]"},
     returns="dict[str,str]",
     locals={"hasher_lookup": "dict[str,Hasher]", "hash_output_lookup": "dict[str,str]"},
     requires=["all(is_format(f) for f in hash_formats)"],
+    # z3 does not connect `x in d` (seq.contains on the key sequence) with "x is the j-th key" on its own
+    lemmas={
+        "before: return hash_output_lookup": [
+            f"all(L_member({HL}.keys(), f) for f in hash_formats)",
+            f"all(L_member({HL}.keys(), k) for k in hash_output_lookup.keys())",
+        ]
+    },
     ensures=[
         "all(f in result for f in hash_formats)",
         "all(k in hash_formats for k in result.keys())",
@@ -404,6 +412,9 @@ contract(
                 "all(_seq[j] in hash_output_lookup for j in range(_i))",
                 f"all(k in {HL} for k in hash_output_lookup.keys())",
                 "all(is_digest_text(hash_output_lookup[k], k, file_bytes(file_path)) for k in hash_output_lookup.keys())",
+                f"all({HL}[k].hasher.absorbed == file_bytes(file_path) for k in {HL}.keys())",
+                f"all(f in {HL} for f in hash_formats)",
+                f"all(k in hash_formats for k in {HL}.keys())",
             ]
             + PER_HASHER,
         ),
